@@ -28,6 +28,7 @@ package unite
 //   gOwned        backing arrays handed to the consumer for good (copy mode)
 //   gLent         backing array lent to the consumer until Release (no-copy mode), 0 = none
 //   gLastDeliv    clock value at the last delivery (or at creation)
+//   gTick         the last event of the loop was a tick of the timeout ticker
 //   gJS, gTO, gNC the configured JoinSize, Timeout and no-copy mode (Opts at New)
 
 //@ ghost var gIn map[int]T
@@ -39,6 +40,7 @@ package unite
 //@ ghost var gOwned set
 //@ ghost var gLent ref
 //@ ghost var gLastDeliv time
+//@ ghost var gTick bool
 //@ ghost var gJS int
 //@ ghost var gTO int
 //@ ghost var gNC bool
@@ -49,8 +51,10 @@ package unite
 //@   effect gBprev := ite(opened, gB, gBprev)
 //@   effect gB := ite(opened, gInN + len(item), gB)
 //@   effect gClosed := gClosed || !opened
+//@   effect gTick := false
 
 //@ event recv ticker.C ()
+//@   effect gTick := true
 
 // What C03 / C08 / C09 / C11 say about a slice at the moment it is delivered.
 //@ event send dsc.output (s)
@@ -210,12 +214,14 @@ package unite
 
 //@ func (*Discipline).loop
 //@   requires [*] INV(dsc)
+//@   requires [C10] !gTick
 //@   requires [*] dsc.interruptInterval > 0
 //@   requires [C09] gTO > 0
 //@   requires [C03 C09 C11] !gClosed
-//@   modifies dsc.join, elems(dsc.join), dsc.passAt, gClock, gIn, gInN, gB, gBprev, gClosed, gOutN, gLastDeliv, gLent, gOwned
+//@   modifies dsc.join, elems(dsc.join), dsc.passAt, gClock, gIn, gInN, gB, gBprev, gClosed, gOutN, gLastDeliv, gLent, gOwned, gTick
 //@   ensures [C03] gClosed && gOutN == gInN
 //@   loop 0
+//@     invariant [C10] a-tick-after-the-timeout-flushes-the-buffer: gTick ==> (gClock - dsc.passAt >= gTO ==> len(dsc.join) == 0)
 //@     invariant [*] INV(dsc)
 //@     invariant [C03 C09 C11] !gClosed
 
@@ -223,7 +229,7 @@ package unite
 //@   requires [*] INV(dsc)
 //@   requires [C03 C09 C11] !gClosed
 //@   requires [C09] gTO <= 0
-//@   modifies dsc.join, elems(dsc.join), dsc.passAt, gClock, gIn, gInN, gB, gBprev, gClosed, gOutN, gLastDeliv, gLent, gOwned
+//@   modifies dsc.join, elems(dsc.join), dsc.passAt, gClock, gIn, gInN, gB, gBprev, gClosed, gOutN, gLastDeliv, gLent, gOwned, gTick
 //@   ensures [C03] gClosed && gOutN == gInN
 //@   loop 0
 //@     invariant [*] INV(dsc)
@@ -231,9 +237,10 @@ package unite
 
 //@ func (*Discipline).main
 //@   requires [*] INV(dsc)
+//@   requires [C10] !gTick
 //@   requires [C03 C09 C11] !gClosed
 //@   requires [C09] (dsc.interruptInterval == 0) <==> (gTO <= 0)
-//@   modifies dsc.join, elems(dsc.join), dsc.passAt, gClock, gIn, gInN, gB, gBprev, gClosed, gOutN, gLastDeliv, gLent, gOwned
+//@   modifies dsc.join, elems(dsc.join), dsc.passAt, gClock, gIn, gInN, gB, gBprev, gClosed, gOutN, gLastDeliv, gLent, gOwned, gTick
 
 //@ func Opts.isValid
 //@   ensures [*] (result == nil) <==> (opts.Input != nil && opts.JoinSize != 0)
@@ -245,7 +252,7 @@ package unite
 // The ghost state of a discipline that does not exist yet is empty. JoinSize and
 // cap(Input)+1 are sizes the runtime can allocate (otherwise make panics in New).
 //@ func New
-//@   requires [*] ghost-initial-state: gJS == opts.JoinSize && gTO == opts.Timeout && (opts.NoCopy <==> gNC) && gInN == 0 && gOutN == 0 && gB == 0 && gBprev == 0 && !gClosed && gLent == 0 && gLastDeliv == gClock && (forall r :: !in(gOwned, r))
+//@   requires [*] ghost-initial-state: !gTick && gJS == opts.JoinSize && gTO == opts.Timeout && (opts.NoCopy <==> gNC) && gInN == 0 && gOutN == 0 && gB == 0 && gBprev == 0 && !gClosed && gLent == 0 && gLastDeliv == gClock && (forall r :: !in(gOwned, r))
 //@   requires [*] allocatable: cap(opts.Input) + 1 < two63 && opts.JoinSize < two63
 //@   modifies gClock
 //@   ensures [*] result1 == nil ==> result0 != nil
